@@ -590,6 +590,31 @@ func init() {
 					}
 				}
 			}
+			// table dimension: every ordered triple of features over a ten-location menu x every deletion and every window
+			if complete {
+				L, tables := multiTables()
+				type arg struct {
+					op   string
+					a, b int
+				}
+				var args []arg
+				for i := 0; i <= L; i++ {
+					for n := 1; i+n <= L; n++ {
+						args = append(args, arg{"delete", i, n}, arg{"erase", i, n})
+					}
+					for e := 0; e <= L; e++ {
+						if e != i {
+							args = append(args, arg{"slice", i, e})
+						}
+					}
+				}
+				done := r.ParallelFor(len(tables)*len(args), func(idx int) {
+					t, a := tables[idx/len(args)], args[idx%len(args)]
+					eval(c03Case{Op: a.op, L: L, Locs: t, I: a.a, N: a.b}, true)
+				})
+				complete = complete && done
+				r.Extra["three_feature_tables"] = len(tables)
+			}
 			// reachable, non-clean shapes through Delete with the relaxed oracle
 			if complete {
 				wideL := []int{2, 3}
